@@ -200,4 +200,95 @@ theorem runHistT_spec {f : Nat} {s s' : Sim} {sts : List Step} {tr : List (Ev ×
         obtain ⟨hw₂, ht₂, hl₂⟩ := ih hw₁ h₂
         exact ⟨hw₂, ht₁.trans ht₂, by rw [hl₂, hl₁]; simp [List.append_assoc]⟩
 
+/-! ### ids on the list are unique; a normal `run_until(T)` takes every entry with time `≤ T` off the list -/
+
+theorem ids_nodup_inj {l : List Ev} (hnd : (ids l).Nodup) {a b : Ev} (ha : a ∈ l) (hb : b ∈ l) (hab : a.id = b.id) :
+    a = b := by
+  induction l with
+  | nil => simp at ha
+  | cons x xs ih =>
+    simp only [ids, List.map_cons, List.nodup_cons, List.mem_map, not_exists, not_and] at hnd
+    rcases List.mem_cons.mp ha with rfl | ha' <;> rcases List.mem_cons.mp hb with rfl | hb'
+    · rfl
+    · exact absurd hab.symm (hnd.1 b hb')
+    · exact absurd hab (hnd.1 a ha')
+    · exact ih hnd.2 ha' hb'
+
+theorem acc_ids_nodup {s : Sim} (ha : Acc s) : (ids s.pending).Nodup := by
+  rw [List.nodup_iff_count]
+  intro i
+  have hc := ha i
+  simp only [List.count_nil, Nat.add_zero] at hc
+  split at hc <;> omega
+
+/-- every entry that is on the list with time `≤ T` — live, cancelled or dead — is off the list after a `run_until(T)` that
+    returns normally (it was executed or discarded: by the accounting its id is in the log or among the discarded ids) -/
+theorem runUntil_consumes_due {f : Nat} {s s' : Sim} {T : Int} (hw : WF s) (ha : Acc s) (hr : runUntil f s T = some s')
+    (hn : s'.raised = none) {e : Ev} (he : e ∈ s.pending) (heT : e.time ≤ T) :
+    e.id ∉ ids s'.pending ∧ s.nextId ≤ s'.nextId := by
+  obtain ⟨tr, htr⟩ := runUntilT_of_runUntil hr
+  have ho := (runUntilT_traced hw htr).origin
+  refine ⟨?_, ho.2⟩
+  intro hmem
+  obtain ⟨y, hy, hyi⟩ := List.mem_map.mp hmem
+  have hyi' : y.id = e.id := hyi
+  have hlate := runUntil_nothing_due hw hr hn y hy
+  rcases ho.1 y hy with ⟨x₀, hx₀, hk⟩ | hge
+  · have hxe : x₀ = e := ids_nodup_inj (acc_ids_nodup ha) hx₀ he (by rw [← hk.2.2]; exact hyi')
+    subst hxe
+    have h1 : y.time = x₀.time := hk.1
+    omega
+  · have := hw.idlt e he; omega
+
+/-! ### the recorded counters of a history's trace -/
+
+theorem runStepT_born {f : Nat} {s s' : Sim} {st : Step} {tr : List (Ev × Nat)} (hw : WF s)
+    (h : runStepT f s st = some (s', tr)) : ∀ y ∈ tr, y.1.id < y.2 ∧ y.1.cancelled = false := by
+  cases st with
+  | cmd c =>
+    simp only [runStepT, Option.some.injEq, Prod.mk.injEq] at h
+    obtain ⟨_, rfl⟩ := h; simp
+  | «until» t =>
+    simp only [runStepT] at h
+    exact fun y hy => ⟨(runUntilT_born hw h y hy).1, (runUntilT_born hw h y hy).2.1⟩
+  | «for» d =>
+    simp only [runStepT] at h
+    exact fun y hy => ⟨(runUntilT_born hw h y hy).1, (runUntilT_born hw h y hy).2.1⟩
+  | next =>
+    simp only [runStepT, Option.some.injEq] at h
+    have h2 : tr = (runNextT s).2 := by rw [h]
+    subst h2
+    unfold runNextT
+    split
+    · simp
+    · rename_i e rest hp
+      intro y hy
+      simp only [List.mem_singleton] at hy; subst hy
+      exact ⟨hw.idlt e (popLive_mem hp).1, (popLive_decomp hp).2⟩
+  | caught =>
+    simp only [runStepT, Option.some.injEq, Prod.mk.injEq] at h
+    obtain ⟨_, rfl⟩ := h; simp
+
+/-- the number recorded with a traced event really is an id counter value at its pop: the event itself is older -/
+theorem runHistT_born {f : Nat} {s s' : Sim} {sts : List Step} {tr : List (Ev × Nat)} (hw : WF s)
+    (h : runHistT f s sts = some (s', tr)) : ∀ y ∈ tr, y.1.id < y.2 ∧ y.1.cancelled = false := by
+  induction sts generalizing s tr with
+  | nil =>
+    simp only [runHistT, Option.some.injEq, Prod.mk.injEq] at h
+    obtain ⟨_, rfl⟩ := h; simp
+  | cons st sts ih =>
+    simp only [runHistT] at h
+    split at h
+    · simp at h
+    · rename_i s₁ tr₁ h₁
+      split at h
+      · simp at h
+      · rename_i s₂ tr₂ h₂
+        simp only [Option.some.injEq, Prod.mk.injEq] at h
+        obtain ⟨rfl, rfl⟩ := h
+        intro y hy
+        rcases List.mem_append.mp hy with hy | hy
+        · exact runStepT_born hw h₁ y hy
+        · exact ih (runStepT_spec hw h₁).1 h₂ y hy
+
 end Mesa.Devs
